@@ -54,3 +54,8 @@ claim("C12",
       "Generated bait tables (nested, overlapping, abutting, duplicate, zero-width, canonical and non-canonical contigs), access tables (abutting/overlapping/short regions, untargeted contigs) or none, and avg/min sizes are run through do_target (split on/off, short names, annotation) and do_antitarget; bins must tile exactly the union of the non-empty baits resp. the shrunk accessible space minus widened targets with max(1, round(len/avg)) equal bins per run, plus the direct clauses (order, disjointness, margins, size bounds, names, contigs).",
       "Trusted: vk/models.py run algebra; sorted bait tables; default minimum = avg/16; two open findings (contig fallback heuristic, minimum applied before splitting) are excluded by signature and counted.",
       "DESIGN.md 5/C12")
+claim("C15",
+      "property-based testing (Hypothesis): uniform-shift and estimator-zero oracles from restated estimators; planted-truth sex inference",
+      "Generated bin tables (1..24 chromosomes, both naming styles or no autosome-like names, null bins, PAR-X bins, all four estimators x by_chrom x skip_low x PAR genome) must be shifted by one constant that zeroes the harness restatement of the (two-level) estimator over the selected bins; generated samples with X/Y at the documented levels for their sex and reference sex (noise sd 0.01..0.3, 40..400 X bins, with/without Y, weights, PAR) must be inferred right by guess_xx and do_sex, moved by exactly +-1/0 on X by shift_xx, and get the 0/-1 flat pattern.",
+      "Trusted: vk/models.py estimator restatements; PAR coordinates restated; estimator ties accepted either way; sex inference is statistical: decided per generated noise realisation (0 failures in 40 000 at the registered generator).",
+      "DESIGN.md 5/C15")
